@@ -76,48 +76,85 @@ def strip_path(name):
     return name
 
 
-def discharge_contracts(rep: Report, contracts, timeout_ms, jobs=None):
-    """run the engine on each contract, discharge all obligations; fills rep; returns list of failed obligation records"""
+def _setup_repo_path(repo):
+    import sys
+
+    if sys.path[0] != repo:
+        sys.path.insert(0, repo)
+        for m in [m for m in sys.modules if m.startswith("dissect.hypervisor")]:
+            del sys.modules[m]
+    if VERIF not in sys.path:
+        sys.path.insert(1, VERIF)
+
+
+def generate_contract(task):
+    """worker: symbolic execution + query preparation for ONE contract in a fresh process state (deterministic names and
+    AST ids, so the SMT-LIB text of every query depends only on the repository source and the contract)"""
+    modname, idx, repo, pid = task
+    _setup_repo_path(repo)
+    mod = importlib.import_module(modname)
+    cs = [c for c in mod.contracts(repo) if pid is None or pid in c.props]
+    c = cs[idx]
+    reset_names()
+    D.reset_memo()
+    t = time.time()
+    out = {"name": c.name, "file": c.file, "qual": c.qual, "props": c.props, "note": c.note, "queries": [], "unsupported": "", "error": ""}
+    try:
+        r = run_contract(repo, c)
+    except Exception as e:  # noqa: BLE001
+        out["error"] = f"engine crash {type(e).__name__}: {e}\n{traceback.format_exc()[-800:]}"
+        return out
+    out.update(line=r.source_line, n_obligations=len(r.obligations), n_paths=r.n_paths, unsupported=r.unsupported)
+    if r.unsupported:
+        out["gen_s"] = round(time.time() - t, 2)
+        return out
+    shifts = D.shifts_by_name(c.shifts)
+    last = D.shifts_by_name(c.last_terms)
+    qs = D.prepare(r.obligations, shifts_for=shifts, units=c.units, last_for=last)
+    for q in qs:
+        q.kind = "ob"
+    cq = D.prepare(r.canaries, shifts_for=shifts, units=c.units)
+    for q in cq:
+        q.kind = "canary"
+    pre = Obligation(f"{c.name}/pre.sat", r.pre_hyps, z3.BoolVal(False), r.source_line, kind="canary")
+    pq = D.prepare([pre])
+    for q in pq:
+        q.kind = "presat"
+    for q in qs + cq + pq:
+        q.cname = c.name
+        q.props = c.props
+    out["queries"] = qs + cq + pq
+    out["gen_s"] = round(time.time() - t, 2)
+    return out
+
+
+def discharge_contracts(rep: Report, modname, n_contracts, timeout_ms, jobs=None):
+    """generate (one process per contract) and discharge all obligations of the contracts of `modname` that carry rep.pid;
+    fills rep; returns {obligation name: [failed atom queries]}"""
     all_obs = []
-    results = []
     if not rep.extra.get("euclid_lemma_proved"):
         if not D.selfcheck_lemmas():
             rep.errors.append("Euclid uniqueness lemma could not be re-proved")
         rep.extra["euclid_lemma_proved"] = True
-    for c in contracts:
-        reset_names()
-        t = time.time()
-        try:
-            r = run_contract(rep.repo, c)
-        except Exception as e:  # noqa: BLE001
-            rep.errors.append(f"{c.name}: engine crash {type(e).__name__}: {e}\n{traceback.format_exc()[-800:]}")
+    tasks = [(modname, i, rep.repo, rep.pid) for i in range(n_contracts)]
+    jobs_n = jobs or min(16, os.cpu_count() or 4)
+    if len(tasks) == 1 or jobs_n == 1:
+        gen = [generate_contract(t) for t in tasks]
+    else:
+        gen = list(D._pool(jobs_n).map(generate_contract, tasks))
+    for g in gen:
+        rep.functions.append({"function": f"{g['file']}:{g['qual']}", "contract": g["name"], "props": g["props"], "line": g.get("line", 0),
+                              "obligation_instances": g.get("n_obligations", 0), "paths": g.get("n_paths", 0), "note": g["note"], "gen_s": g.get("gen_s", 0)})
+        if g["error"]:
+            rep.errors.append(f"{g['name']}: {g['error']}")
             continue
-        results.append(r)
-        rep.functions.append({"function": f"{c.file}:{c.qual}", "contract": c.name, "props": c.props, "line": r.source_line,
-                              "obligation_instances": len(r.obligations), "paths": r.n_paths, "note": c.note,
-                              "gen_s": round(time.time() - t, 2)})
-        if r.unsupported:
-            rep.unsupported.append(f"{c.name}: unsupported({r.unsupported})")
+        if g["unsupported"]:
+            rep.unsupported.append(f"{g['name']}: unsupported({g['unsupported']})")
             continue
-        if not r.obligations:
-            rep.errors.append(f"{c.name}: zero obligations generated")
-        shifts = D.shifts_by_name(c.shifts)
-        qs = D.prepare(r.obligations, shifts_for=shifts, units=c.units)
-        for q in qs:
-            q.kind = "ob"
-            q.contract = c
-        # vacuity: precondition satisfiable, at least one return path reachable (canary must NOT be proved)
-        cq = D.prepare(r.canaries, shifts_for=shifts)
-        for q in cq:
-            q.kind = "canary"
-            q.contract = c
-        pre = Obligation(f"{c.name}/pre.sat", r.pre_hyps, z3.BoolVal(False), r.source_line, kind="canary")
-        pq = D.prepare([pre])
-        for q in pq:
-            q.kind = "presat"
-            q.contract = c
-        all_obs += qs + cq + pq
-    D.run_queries(all_obs, jobs=jobs, timeout_ms=timeout_ms, seed=rep.seed)
+        if not g.get("n_obligations"):
+            rep.errors.append(f"{g['name']}: zero obligations generated")
+        all_obs += g["queries"]
+    D.run_queries(all_obs, jobs=jobs, timeout_ms=timeout_ms, thorough=(rep.tier == "thorough"), seed=rep.seed)
     rep.n_queries += len(all_obs)
     failed = {}
     canary_ok = {}
@@ -128,15 +165,15 @@ def discharge_contracts(rep: Report, contracts, timeout_ms, jobs=None):
             rep.errors.append(f"{q.ob_name}: solver error {q.detail}")
             continue
         if q.kind == "canary":
-            canary_ok.setdefault(q.contract.name, False)
+            canary_ok.setdefault(q.cname, False)
             if q.verdict != "unsat":
-                canary_ok[q.contract.name] = True
+                canary_ok[q.cname] = True
             continue
         if q.kind == "presat":
-            presat[q.contract.name] = q.verdict
+            presat[q.cname] = q.verdict
             continue
         o = rep.obligations.setdefault(q.ob_name, {"verdict": "discharged", "atoms": 0, "ms": 0, "backends": set(), "line": q.line,
-                                                   "props": q.contract.props, "stages": set()})
+                                                   "props": q.props, "stages": set()})
         o["atoms"] += 1
         o["ms"] += int(q.secs * 1000)
         o["backends"].add(q.backend)
